@@ -960,7 +960,8 @@ func typeAssert(i *interpreter, instr *ssa.TypeAssert, itf iface) value {
 
 	if err != "" {
 		if !instr.CommaOk {
-			panic(err)
+			// a failed x.(T) is a run-time panic of the target program
+			panic("target:" + err)
 		}
 		return tuple{zero(instr.AssertedType), false}
 	}
